@@ -20,7 +20,7 @@ CONSTANTS N,            \* non-empty data records of the frame type
           Selections,   \* records [kind |-> "slice", a, b, c] | [kind |-> "sample", n] | [kind |-> "all"]
           Requests      \* records [all |-> BOOLEAN, chans |-> subset of 1..NCh]
 
-Indices(sel, n) == CASE sel.kind = "slice" -> PySlice(sel.a, sel.b, sel.c, n)
+Indices(sel, n) == CASE sel.kind = "slice" -> PySliceAny(sel.a, sel.b, sel.c, n)
                      [] sel.kind = "all" -> [i \in 1..n |-> i - 1]
                      [] OTHER -> [i \in 1..Min2(sel.n, n) |-> ((i - 1) * n) \div Min2(sel.n, n)]   \* the even spread of a sample
 Wanted(req, ch) == req.all \/ ch = 1 \/ ch \in req.chans
